@@ -16,7 +16,7 @@ def brkMarkup : Str := "<br/>\n    ".toList
 /-! ### DFXPWriter._recreate_text / _recreate_span (style nodes without layout) -/
 
 /-- attributes `_recreate_style` yields for a style node's flags: only italics has a DFXP rendering -/
-def dfxpStyles (f : Flags) : Str := if f.italics then " tts:fontStyle=\"italic\"".toList else []
+def dfxpStyles (f : Flags) : Str := if f.italics then ' ' :: "tts:fontStyle=\"italic\"".toList else []
 
 def dfxpSpan (line : Str) (openSpan : Bool) (start : Bool) (styles : Str) : Str × Bool :=
   if start then
